@@ -134,6 +134,7 @@ type Scenario struct {
 	Flows      []*FlowSpec
 	Contacts   []*ContactSpec
 	Vocab      []string // words router cases test for: personas answer with them
+	Marathon   bool     // flow 0 is a menu loop and the world lets the conversation run for well over a hundred resumes
 	Markers    map[string]Marker
 }
 
@@ -385,8 +386,9 @@ func (g *G) genAssets() {
 	for i, n := 0, t.Weighted("nusers", 2, 2, 1); i < n; i++ {
 		s.Users = append(s.Users, []UserSpec{{Email: "bob@nyaruka.com", Name: "Bob"}, {Email: "ann@nyaruka.com", Name: "Ann"}}[i])
 	}
-	for i, n := 0, t.Weighted("nglobals", 2, 2, 1, 1); i < n; i++ {
-		s.Globals = append(s.Globals, []GlobalSpec{{Key: "org_name", Name: "Org Name", Value: "Nyaruka"}, {Key: "limit", Name: "Limit", Value: "10"}, {Key: "text", Name: "Text", Value: "some text"}}[i])
+	for i, n := 0, t.Weighted("nglobals", 2, 2, 1, 1, 2); i < n; i++ {
+		// (the last one shares its key with a contact field: separate namespaces)
+		s.Globals = append(s.Globals, []GlobalSpec{{Key: "org_name", Name: "Org Name", Value: "Nyaruka"}, {Key: "limit", Name: "Limit", Value: "10"}, {Key: "text", Name: "Text", Value: "some text"}, {Key: "code", Name: "Code", Value: "G-77"}}[i])
 	}
 	for i, n := 0, t.Weighted("nclassifiers", 2, 2, 1, 1); i < n; i++ {
 		s.Classifs = append(s.Classifs, ClassifierSpec{UUID: g.uuid(kClassifier), Name: []string{"Booking", "Luis", "Bothub"}[i], Type: []string{"wit", "luis", "bothub"}[i], Intents: []string{"book_flight", "book_hotel"}})
